@@ -74,9 +74,55 @@ class Core:
         return z3.And(V.is_obj(v), z3.Or([self.isinst_ref(V.ref(v), c) for c in CONTAINER_CLASSES]))
 
     # ------------------------------------------------------------------ heap
+    def _is_alloc_term(self, t):
+        """AP0 + k / ap!N + k: the reference of an object allocated during this execution"""
+        todo = [t]
+        found = False
+        while todo:
+            x = todo.pop()
+            if z3.is_int_value(x):
+                continue
+            if z3.is_app(x) and x.num_args() == 0 and x.decl().kind() == z3.Z3_OP_UNINTERPRETED:
+                nm = x.decl().name()
+                if nm == 'AP0' or nm.startswith('ap!'):
+                    found = True
+                    continue
+                return False
+            if z3.is_app(x) and x.decl().kind() in (z3.Z3_OP_ADD,):
+                todo.extend(x.children())
+                continue
+            return False
+        return found
+
+    def select(self, st, arr, ref):
+        """arr[ref] with stores to provably different references skipped (keeps terms matchable)"""
+        ref = z3.simplify(ref)
+        for _ in range(64):
+            if not (z3.is_app(arr) and arr.decl().kind() == z3.Z3_OP_STORE):
+                break
+            base, idx, val = arr.children()
+            idx = z3.simplify(idx)
+            if z3.eq(idx, ref):
+                return val
+            d = z3.simplify(idx == ref)
+            if z3.is_false(d):
+                arr = base
+                continue
+            if z3.is_true(d):
+                return val
+            # a fresh object versus a reference that exists in the initial state
+            if self._is_alloc_term(idx) and z3.is_app(ref) and ref.decl().name() == 'ref' and \
+                    self._is_initial(st, ref.arg(0)):
+                st.assume(z3.Implies(V.is_obj(ref.arg(0)), ref < st.ghost['$ap0']))
+                if self.known(st, V.is_obj(ref.arg(0))) is True:
+                    arr = base
+                    continue
+            break
+        return z3.simplify(z3.Select(arr, ref))
+
     def get(self, st, objv, field):
         """objv.field for an object value (no existence check)."""
-        t = z3.simplify(z3.Select(st.H(field), V.ref(objv)))
+        t = self.select(st, st.H(field), V.ref(objv))
         self.wf_load(st, t)
         return t
 
@@ -103,7 +149,7 @@ class Core:
         """content value of a container: the value itself if immutable, else the $val slot."""
         k = self.known(st, V.is_obj(v))
         if k is True:
-            return z3.simplify(z3.Select(st.H('$val'), V.ref(v)))
+            return self.select(st, st.H('$val'), V.ref(v))
         if k is False:
             return v
         return z3.If(V.is_obj(v), z3.Select(st.H('$val'), V.ref(v)), v)
@@ -222,6 +268,14 @@ class Core:
             r = s2.check()
         self.stats['feas_s'] += time.time() - t0
         return r != z3.unsat
+
+    def impossible(self, st, cond, timeout=4000):
+        """full-strength check (quantified facts included) that cond cannot hold on this path"""
+        s = z3.Solver()
+        s.set('timeout', timeout)
+        s.add(st.pc)
+        s.add(cond)
+        return s.check() == z3.unsat
 
     def split(self, st, cond):
         """-> (state where cond holds | None, state where it does not | None)"""
